@@ -257,6 +257,54 @@ def _bitfield_bits(ctx):
     env = sym.single_assign_env(gs)
     ok = len(use) == 1 and len(use[0].args) == 2 and "eval_expr" in norm(sym.deep_inline(use[0].args[1], env))
     ctx.ob("C28.R7", CG + ":CCodeGenerator.gen_global_initialize_struct", "(context) the evaluated initialiser and the evaluated field width are handed to value_to_bits without a range check of their own", ok, construct="caller-unchecked", detail=norm(use[0]) if use else "")
+    _pack_formats(ctx)
+
+
+STRUCT_SIZE = {"b": 1, "B": 1, "h": 2, "H": 2, "i": 4, "I": 4, "q": 8, "Q": 8, "f": 4, "d": 8}
+
+
+def _pack_formats(ctx):
+    """R8: a global of a basic type is initialised through CContext.pack, which looks the type up in the table of
+    struct formats and asserts that the format has the type's size.  A basic type with a size but without a format
+    (KeyError), or with a format of another size (AssertionError), or of the wrong signedness (struct.error for half of
+    the type's values) stops the compiler with an internal exception."""
+    CX = "ppci/lang/c/context.py"
+    ctx.rule("C28.R8", "CContext: every basic type that can be declared (has an entry in type_size_map) has a struct format in the pack table, of the same size and of the type's signedness", floor=12)
+    ini = ctx.fn(CX, "CContext.__init__")
+    site = CX + ":CContext.__init__"
+    sizes, fmts = None, None
+    for n in ast.walk(ini):
+        if isinstance(n, ast.Assign) and isinstance(n.value, ast.Dict):
+            t = norm(n.targets[0])
+            if t == "self.type_size_map":
+                sizes = {norm(k).split(".")[-1]: v for k, v in zip(n.value.keys, n.value.values)}
+            elif t == "ctypes":
+                fmts = {(norm(k).split(".")[-1] if not isinstance(k, ast.Constant) else k.value): v for k, v in zip(n.value.keys, n.value.values)}
+    ctx.need(sizes and fmts and len(sizes) >= 12 and len(fmts) >= 10, "CContext.__init__: type_size_map / ctypes tables not found")
+    ctx.saw("tables", "CContext.type_size_map, CContext.ctypes")
+    for name in sorted(sizes):
+        if name == "VA_LIST":
+            continue
+        ctx.ob("C28.R8", site, "basic type %s has a pack format (a global of that type with an initialiser reaches CContext.pack)" % name, name in fmts, construct="has-format:" + name)
+        if name not in fmts:
+            continue
+        f = fmts[name]
+        sz = sizes[name].elts[0] if isinstance(sizes[name], ast.Tuple) else None
+        unsigned = name.startswith("U")
+        is_float = name in ("FLOAT", "DOUBLE", "LONGDOUBLE")
+        if isinstance(f, ast.Constant) and isinstance(f.value, str):
+            code = f.value
+            if isinstance(sz, ast.Constant):
+                ctx.ob("C28.R8", site, "the format of %s has the type's size (%d)" % (name, sz.value), STRUCT_SIZE.get(code) == sz.value, construct="format-size:" + name, detail="format %r" % code)
+            if not is_float:
+                ctx.ob("C28.R8", site, "the format of %s is %s" % (name, "unsigned" if unsigned else "signed"), code.isupper() == unsigned, construct="format-sign:" + name, detail="format %r" % code)
+        else:
+            t = " ".join(norm(f).split())
+            # int_map[<size var>].lower() / .upper(): the size variable must be the one of type_size_map
+            if not is_float:
+                want = ".upper()" if unsigned else ".lower()"
+                ok = t.endswith(want) and sz is not None and ("[%s]" % norm(sz)) in t
+                ctx.ob("C28.R8", site, "the format of %s is chosen by the size the type has in type_size_map and is %s" % (name, "unsigned" if unsigned else "signed"), ok, construct="format-sign:" + name, detail=t)
 
 
 def _anc28(n):
